@@ -446,7 +446,8 @@ func Check(s Script) []evid.Violation {
 				return fail("client", "http-reply-differs", "reply %d differs", i)
 			}
 		}
-		if direct.Code != codes.OK && len(direct.Replies) == 0 {
+		// a failure after k >= 0 replies travels as a google.rpc.Status object that follows the replies
+		if direct.Code != codes.OK {
 			if via.Code != direct.Code || via.Msg != direct.Msg || via.Details != direct.Details {
 				return fail("client", "http-status", "direct status %v %q details=%d; HTTP body status %v %q details=%d (HTTP %d)", direct.Code, direct.Msg, direct.Details, via.Code, via.Msg, via.Details, httpStatus)
 			}
@@ -522,7 +523,12 @@ func genScript(t *rapid.T) Script {
 			s.K = 0
 		}
 		s.Code = rapid.SampledFrom([]uint32{1, 2, 3, 5, 9, 13, 14, 16}).Draw(t, "code")
-		s.Msg = rapid.SampledFrom([]string{"", "boom", "50% wrong", "ünïcode"}).Draw(t, "msg")
+		if rapid.Bool().Draw(t, "msgpool") {
+			s.Msg = rapid.SampledFrom([]string{"", "boom", "50% wrong", "ünïcode", "a%2Fb is locked", "%41%42 tail", "100%", "%", "%%25"}).Draw(t, "msg")
+		} else {
+			// percent signs before hex digits, control bytes, multi-byte runes; HTTP field values can not keep outer whitespace
+			s.Msg = strings.TrimSpace(rapid.StringMatching(`[a-c%0-9A-F é€\n\t"\\]{0,10}`).Draw(t, "msgtext"))
+		}
 		s.Detail = rapid.Bool().Draw(t, "detail")
 	}
 	return s
